@@ -38,6 +38,7 @@ XStep(st, e, t) ==
            ELSE \* broadcast by the network's own NMT master (node id 0)
                 Finish(st, e, [m |-> st.m, s |-> OnCommand(st.s, t.nid, e.code, 0)],
                        <<[side |-> "master", id |-> 0, d |-> <<e.code, 0>>]>>)
+      [] e.e = "guard" -> IF e.raised THEN Bad(st, "node guarding start / stop raised") ELSE Finish(st, e, st, <<>>)
       [] e.e = "inject" ->      \* a command frame from a third party reaches both networks
            Finish(st, e, [m |-> OnCommand(st.m, t.nid, e.code, e.target),
                           s |-> OnCommand(st.s, t.nid, e.code, e.target)], <<>>)
